@@ -599,6 +599,8 @@ class LinAnalysis:
         self.track_writes = False   # remember how far writes into each area reached (USEDCOVER)
         self.flex = {}             # record -> (member array, bytes before it): inline area that extends to the end of the allocation
         self.track_wraps = False   # unsigned results that may have wrapped are resolved once a later test decides it
+        self.indirect_hook = None  # hook(an, st, fr, call, args) at calls through function pointers without a contract
+        self.exit_hook = None      # hook(an, st, fr, head, from block, to block) on every edge that leaves a loop
         self.noeffect = 0          # > 0 while a condition is read again for refinement: steps and assignments are not repeated
         self.peel = False          # first iteration of a loop is analysed on its own (the entry state is not joined into the head state)
         self.state_budget = None   # deterministic cut: number of block states processed
@@ -717,6 +719,9 @@ class LinAnalysis:
                 return ObjPtr(C, pre + v.prefix, v.maybe_null, v.boff)
             return v
         for k in list(st.env):
+            if k[0] == "powner" and isinstance(st.env[k], tuple) and st.env[k][0] == obj:
+                st.env[k] = (C, pre + st.env[k][1])
+                continue
             st.env[k] = fix(st.env[k])
         for k in list(st.cache):
             st.cache[k] = fix(st.cache[k])
@@ -1778,6 +1783,17 @@ class LinAnalysis:
                 return [st]
         return self.assume_val(c, c, truth, st, fr)
 
+    def refine_products(self, st):
+        """m = q * p on record (p >= 1, q >= 0): a product known to be positive is at least p"""
+        for k in [k for k in st.env if k[0] == "mul"]:
+            m = st.env[k]
+            if not isinstance(m, Lin) or ("mulpos", k[1], k[2]) in st.env:
+                continue
+            if st.entails(m - Lin.const(1)):
+                st.env[("mulpos", k[1], k[2])] = Lin.const(1)
+                st.add(m - Lin.sym(k[2]))
+                st.add(Lin.sym(k[1]) - Lin.const(1))
+
     def resolve_wraps(self, st):
         for k in [k for k in st.env if k[0] == "wrapof"]:
             v, m = st.env[k]
@@ -1809,6 +1825,7 @@ class LinAnalysis:
                 return []
             if self.track_wraps:
                 self.resolve_wraps(st)
+            self.refine_products(st)
             return [st]
         # a != b : two half spaces
         s2 = st.copy()
@@ -1829,7 +1846,15 @@ class LinAnalysis:
                 st.env[("distinct", a.obj, b.obj)] = Lin.const(1)
                 st.env[("distinct", b.obj, a.obj)] = Lin.const(1)
                 return [st]
-            # equal pointers to two symbolic objects: same object - keep the state but nothing is merged (fields of both stay)
+            # equal pointers to two symbolic objects: same object - nothing is merged (fields of both stay), but the
+            # place one of them was read from now holds the other (an unknown member that turned out to be a known node)
+            if self.track_fields:
+                for x, xe, y in ((a, c["a"], b), (b, c["b"], a)):
+                    if isinstance(x.obj, str) and x.obj[:1] == "L" and not (isinstance(y.obj, str) and y.obj[:1] == "L"):
+                        loc = self.lval_of_value_expr(xe, st, fr)
+                        if loc is not None and not isinstance(loc, MemLoc) and loc[0] == "f":
+                            st.env[loc] = ObjPtr(y.obj, y.prefix, False, y.boff)
+                            break
             return [st]
         # comparison with the null pointer
         for x, xe, y in ((a, c["a"], b), (b, c["b"], a)):
@@ -1958,6 +1983,8 @@ class LinAnalysis:
                 # call through a function pointer member with a stated contract
                 self.stats["slot_calls"] = self.stats.get("slot_calls", 0) + 1
                 return self.slot_contracts[ce["f"]](self, st, fr, e, args)
+        if g is None and self.indirect_hook is not None and e.get("callee") is not None:
+            self.indirect_hook(self, st, fr, e, args)
         if g is not None and (g.name in self.post) and fr.depth >= 0 and g is not self.root:
             return self.post[g.name](self, st, fr, e, args)
         if g is not None and (g.name in self.modular or g.qn in self.modular or (self.policy is not None and self.policy(fr, g) == "modular")):
@@ -2224,6 +2251,12 @@ class LinAnalysis:
                                 continue
                             outs.append((t, s if first else s.copy()))
                             first = False
+                    if self.exit_hook is not None and bid in f._lin_inner:
+                        for t, o in outs:
+                            for h in loops:
+                                if bid in loops[h] and t not in loops[h]:
+                                    self.cur = o
+                                    self.exit_hook(self, o, fr, h, bid, t)
                     for t, o in outs:
                         if t == f.exit and not f.blocks[t].el:
                             returns.append((o, None))
